@@ -15,6 +15,9 @@ IR (tuples, JSON-able):
           | ("C", text)                         a '## text' line
           | ("Doc", text)                       <%doc>text</%doc> followed by backslash-newline (no output at all)
           | ("Raw", mako_text, (python line, ...))   hand-written pair (tags), '{nl}' = line terminator
+          | ("Block", body)                     anonymous <%block> ... </%block>: a closure run in place
+          | ("CallBody", "f()", body)           <%call expr="f()"> body </%call>: the body is a closure handed to f as caller.body
+          | ("NDef", name, sig, body)           a <%def> written inside another def's body (declaration only)
 
 Two printers read it:
 
@@ -163,6 +166,18 @@ def mako_source(prog, sp):
             out.append("<%doc>" + s[1] + "</%doc>\\" + nl)
         elif k == "Raw":
             out.append(s[1].replace("{nl}", nl))
+        elif k == "Block":
+            out.append("<%block>" + nl)
+            body(s[1])
+            out.append("</%block>" + nl)
+        elif k == "CallBody":
+            out.append('<%%call expr="%s">' % s[1] + nl)
+            body(s[2])
+            out.append("</%call>" + nl)
+        elif k == "NDef":
+            out.append('<%%def name="%s(%s)">' % (s[1], s[2]) + nl)
+            body(s[3])
+            out.append("</%def>" + nl)
         else:
             raise ValueError(k)
 
@@ -209,6 +224,12 @@ def count_lines(prog):
                 c[0] += 1
             elif k == "Py" and s[2] != "inline":
                 c[1] += 1
+            elif k == "Block":
+                body(s[1])
+            elif k == "CallBody":
+                body(s[2])
+            elif k == "NDef":
+                body(s[3])
 
     for _, _, b in prog.get("defs", ()):
         body(b)
@@ -290,8 +311,38 @@ def ref_source(prog, enable_loop, nl="\n"):
         elif k == "Raw":
             for l in s[2]:
                 emit(ind, l.replace("{nl}", nl.encode("unicode_escape").decode("ascii")))
+        elif k in ("Block", "CallBody"):
+            # a closure of the enclosing callable: it shares that callable's loop stack (and, by
+            # Python's own rule, `loop` becomes its local if it binds it with a `% for` of its own)
+            nclos[0] += 1
+            fn = "__clos%d" % nclos[0]
+            b = s[1] if k == "Block" else s[2]
+            emit(ind, "def %s():" % fn)
+            emit(ind + 1, "__o(%r)" % nl)
+            body(b, ind + 1)
+            emit(ind + 1, "return ''")
+            if k == "Block":
+                emit(ind, fn + "()")
+            else:
+                emit(ind, "__cbstack.append(%s)" % fn)
+                emit(ind, "try:")
+                emit(ind + 1, "__o(str(%s))" % s[1])
+                emit(ind, "finally:")
+                emit(ind + 1, "__cbstack.pop()")
+            emit(ind, "__o(%r)" % nl)
+        elif k == "NDef":
+            emit(ind, "def %s(%s):" % (s[1], s[2]))
+            if enable_loop:
+                emit(ind + 1, "__R = __RefLoopStack()")
+                emit(ind + 1, "loop = __R.top()")
+            emit(ind + 1, "__o(%r)" % nl)
+            body(s[3], ind + 1)
+            emit(ind + 1, "return ''")
+            emit(ind, "__o(%r)" % nl)
         else:
             raise ValueError(k)
+
+    nclos = [0]
 
     def func(name, sig, stmts, pre):
         emit(0, "def %s(%s):" % (name, sig))
@@ -727,6 +778,15 @@ def kinds(prog):
                 ks.add("doc")
             elif k == "Raw":
                 ks.add("tag")
+            elif k == "Block":
+                ks.add("block")
+                body(s[1], d + 1)
+            elif k == "CallBody":
+                ks.add("call-body")
+                body(s[2], d + 1)
+            elif k == "NDef":
+                ks.add("nested-def")
+                body(s[3], d + 1)
 
     for _, _, b in prog.get("defs", ()):
         ks.add("def")
@@ -768,6 +828,15 @@ def uses_loop(prog):
                     return True
             elif k == "Raw":
                 if pat.search(s[1]):
+                    return True
+            elif k == "Block":
+                if body(s[1]):
+                    return True
+            elif k == "CallBody":
+                if pat.search(s[1]) or body(s[2]):
+                    return True
+            elif k == "NDef":
+                if body(s[3]):
                     return True
         return False
 
